@@ -107,6 +107,10 @@ def check(case, vals=None):
                         except NotImplementedError:
                             continue
                         except Exception as e:
+                            if kind == "persist":
+                                # persist executes the graph: a task that raises is C01's (values) business
+                                labs.append("persist-raised")
+                                continue
                             fails.append((util.exc_bucket(kind, e), util.exc_detail(e)))
                             continue
                         if x.name != name0:
